@@ -5,10 +5,10 @@ From PcoreV Require Import Model.Base Model.Loader Model.LoaderSpec Model.Loader
 Import ListNotations.
 
 Definition aout_fine (o : aout) : Prop :=
-  o = AOk \/ o = AErr ERedefine \/ o = AErr ERedefineType \/ o = ABadLoader.
+  o = AOk \/ o = AErr ERedefine \/ o = AErr ERedefineType \/ o = ABadLoader \/ o = AErr EOther.
 
 Lemma aout_fine_ok x o : aout_fine o -> xout_ok (XAddTypes (fst x) (snd x)) (XA o) = true.
-Proof. intros [->|[->|[->| ->]]]; reflexivity. Qed.
+Proof. intros [->|[->|[->|[->| ->]]]]; reflexivity. Qed.
 
 Section Sim.
   Variable cfg : config.
@@ -24,7 +24,7 @@ Section Sim.
     destruct (step_sim cfg st (ODefine (ref_idx L base r) n v) st1 r1 Hi Hw E) as (Hi1 & Hs & Hok).
     rewrite Hs. injection H as <- <-. split; [exact Hi1|].
     unfold aout_fine.
-    destruct r1 as [| | | |[| |]| | |[| |]| |]; cbn [out_ok] in Hok; try discriminate; cbn [project aout_of]; auto.
+    destruct r1 as [| | | |[| |]| | |[| |]| |]; cbn [out_ok] in Hok; try discriminate; cbn [project aout_of]; auto 8.
   Qed.
 
   Lemma exec_act_sim st a st' o :
@@ -38,10 +38,10 @@ Section Sim.
       destruct (step_sim cfg st (OLoadEntry (ref_idx L base r) n) st1 r1 Hi Hw E) as (Hi1 & Hs & Hok).
       rewrite Hs.
       destruct r1 as [| | | |[| |]| | |[| |]| |]; cbn [out_ok] in Hok; try discriminate; cbn [project].
-      + injection H as <- <-. split; [exact Hi1|]. split; [reflexivity|]. unfold aout_fine. cbn [aout_of]. auto.
+      + injection H as <- <-. split; [exact Hi1|]. split; [reflexivity|]. unfold aout_fine. cbn [aout_of]. auto 8.
       + eapply exec_set_sim; eauto.
       + eapply exec_set_sim; eauto.
-      + injection H as <- <-. split; [exact Hi1|]. split; [reflexivity|]. unfold aout_fine. auto.
+      + injection H as <- <-. split; [exact Hi1|]. split; [reflexivity|]. unfold aout_fine. auto 8.
   Qed.
 
   Lemma exec_acts_sim : forall acts st st' o,
@@ -50,7 +50,7 @@ Section Sim.
     inv st' /\ exec_acts (spec_step cfg) L base (abs st) acts = (abs st', o) /\ aout_fine o.
   Proof.
     induction acts as [|a acts IH]; intros st st' o Hi Hw H; cbn [exec_acts forallb] in *.
-    - injection H as <- <-. split; [exact Hi|]. split; [reflexivity|]. unfold aout_fine. auto.
+    - injection H as <- <-. split; [exact Hi|]. split; [reflexivity|]. unfold aout_fine. auto 8.
     - apply andb_prop in Hw. destruct Hw as [Hwa Hw].
       destruct (exec_act (step cfg) L base st a) as [st1 o1] eqn:E.
       destruct (exec_act_sim st a st1 o1 Hi Hwa E) as (Hi1 & Hs & Hf). rewrite Hs.
@@ -63,23 +63,24 @@ Section Sim.
     exec_instr (step cfg) add_node (@length lnode) L base st i = (st', o) ->
     inv st' /\ exec_instr (spec_step cfg) spec_add (@length anode) L base (abs st) i = (abs st', o) /\ aout_fine o.
   Proof.
-    intros Hi Hw H. destruct i as [a|p ts|r n body]; cbn [exec_instr instr_wf] in *.
+    intros Hi Hw H. destruct i as [a|p ts|r n body|c]; cbn [exec_instr instr_wf] in *.
+    4: { injection H as <- <-. split; [exact Hi|]. split; [reflexivity|]. unfold aout_fine. destruct c; auto 6. }
     - eapply exec_act_sim; eauto.
     - rewrite abs_length.
       destruct (Nat.ltb_spec (ref_idx L base p) (length st)) as [Hl|Hl].
       + destruct (add_node st (KTypeSet (ref_idx L base p) ts)) as [st1 r1] eqn:E.
         destruct (add_node_sim st (KTypeSet (ref_idx L base p) ts) st1 r1 Hi ltac:(intros q Eq; cbn [parent_of] in Eq; injection Eq as <-; exact Hl) E) as (Hi1 & Hs & ->).
-        rewrite Hs. injection H as <- <-. split; [exact Hi1|]. split; [reflexivity|]. unfold aout_fine. auto.
-      + injection H as <- <-. split; [exact Hi|]. split; [reflexivity|]. unfold aout_fine. auto.
+        rewrite Hs. injection H as <- <-. split; [exact Hi1|]. split; [reflexivity|]. unfold aout_fine. auto 8.
+      + injection H as <- <-. split; [exact Hi|]. split; [reflexivity|]. unfold aout_fine. auto 8.
     - apply andb_prop in Hw. destruct Hw as [Hwn Hwb].
       destruct (step cfg st (OLoadEntry (ref_idx L base r) n)) as [st1 r1] eqn:E.
       destruct (step_sim cfg st (OLoadEntry (ref_idx L base r) n) st1 r1 Hi Hwn E) as (Hi1 & Hs & Hok).
       rewrite Hs.
       destruct r1 as [| | | |[| |]| | |[| |]| |]; cbn [out_ok] in Hok; try discriminate; cbn [project].
-      + injection H as <- <-. split; [exact Hi1|]. split; [reflexivity|]. unfold aout_fine. cbn [aout_of]. auto.
+      + injection H as <- <-. split; [exact Hi1|]. split; [reflexivity|]. unfold aout_fine. cbn [aout_of]. auto 8.
       + eapply exec_acts_sim; eauto.
       + eapply exec_acts_sim; eauto.
-      + injection H as <- <-. split; [exact Hi1|]. split; [reflexivity|]. unfold aout_fine. auto.
+      + injection H as <- <-. split; [exact Hi1|]. split; [reflexivity|]. unfold aout_fine. auto 8.
   Qed.
 
   Lemma exec_sim : forall is st st' o,
@@ -88,7 +89,7 @@ Section Sim.
     inv st' /\ exec (spec_step cfg) spec_add (@length anode) L base (abs st) is = (abs st', o) /\ aout_fine o.
   Proof.
     induction is as [|i is IH]; intros st st' o Hi Hw H; cbn [exec forallb] in *.
-    - injection H as <- <-. split; [exact Hi|]. split; [reflexivity|]. unfold aout_fine. auto.
+    - injection H as <- <-. split; [exact Hi|]. split; [reflexivity|]. unfold aout_fine. auto 8.
     - apply andb_prop in Hw. destruct Hw as [Hwi Hw].
       destruct (exec_instr (step cfg) add_node (@length lnode) L base st i) as [st1 o1] eqn:E.
       destruct (exec_instr_sim st i st1 o1 Hi Hwi E) as (Hi1 & Hs & Hf). rewrite Hs.
